@@ -3,6 +3,7 @@ package main
 import (
 	"fmt"
 	"go/token"
+	"go/types"
 	"strings"
 
 	"golang.org/x/tools/go/ssa"
@@ -146,8 +147,19 @@ func checkC13(cx *Ctx, r *Report) {
 	// time step getters
 	if timeS != nil {
 		okG := false
-		if mc, isCall := timeS.Arg["logic"].(*ssa.Call); isCall && len(mc.Call.Args) >= 2 {
-			okG = cx.getterSuffix(mc.Call.Args[0], "<samlp.LogoutRequestType>.IssueInstant") && cx.getterSuffix(mc.Call.Args[1], "<samlp.LogoutRequestType>.NotOnOrAfter")
+		if fcs := cx.factoryCallsOfStep(timeS, "logic", "provider.checkIfRequestTimeIsStillValid"); len(fcs) > 0 {
+			okG = true
+			for _, mc := range fcs {
+				if len(mc.Call.Args) < 2 || !cx.getterSuffix(mc.Call.Args[0], "<samlp.LogoutRequestType>.IssueInstant") || !cx.getterSuffix(mc.Call.Args[1], "<samlp.LogoutRequestType>.NotOnOrAfter") {
+					okG = false
+				}
+			}
+		}
+		// the window is checked for every request (IssueInstant is always there), and a closure wrapped around the
+		// check (to record its error) hands the verdict on
+		r.Check(timeS.Kind == "WithLogicStep", "R-ORDER", "slo:time:unconditional", timeS.Pos, "the time-window step is unconditional", "the time-window step is conditional ("+timeS.Kind+"): requests the condition excludes are answered with Success whatever their IssueInstant / NotOnOrAfter")
+		if lf := timeS.Fn("logic"); lf != nil && lf.Parent() == ch.Fn {
+			cx.checkErrPropagation(r, "R-ERR", "slo:time", lf)
 		}
 		r.Check(okG, "R-GUARD", "slo:time:bounds", timeS.Pos, "lower bound = IssueInstant, upper bound = NotOnOrAfter of the decoded request", "the time-window step does not use IssueInstant as lower and NotOnOrAfter as upper bound of the decoded request")
 		cx.checkTimeWindow(r, "R-GUARD")
@@ -257,11 +269,16 @@ func checkC13(cx *Ctx, r *Report) {
 		inLoop := fi.reachable(st.Block(), st.Block())
 		condOK := true
 		why := ""
+		// the value may come out of a helper that picks the first entry (`loc, ok := firstLocation(list)`): then
+		// the helper is judged (below), and tests of the results of that very call are part of the selection
+		helperCall, helperWhy := cx.firstElemHelper(st.Val)
 		for _, a := range fx.AtomsAt(st) {
 			switch {
 			case a.Op == "NIL" && a.Neg:
 			case a.Op == "LT" && !a.Neg && strings.Contains(a.B, "len("):
 			case a.Op == "EMPTY" && a.Neg && strings.Contains(a.A, "SingleLogoutService"):
+			case helperCall != nil && atomAboutCall(a, helperCall):
+			case helperCall != nil && a.Op == "EMPTY" && a.Neg && a.A == fx.path(st.Val):
 			default:
 				condOK = false
 				why = a.String()
@@ -272,6 +289,8 @@ func checkC13(cx *Ctx, r *Report) {
 			r.Fail("R-GUARD", "slo:first-entry", w.InstrPos(st), "LogoutURL is assigned on every iteration over SingleLogoutService (the last entry wins), not only for the first entry")
 		case !condOK:
 			r.Fail("R-GUARD", "slo:first-entry", w.InstrPos(st), "LogoutURL is assigned under a condition ("+why+"): the entry used need not be the first registered one")
+		case helperCall != nil:
+			r.Check(helperWhy == "", "R-GUARD", "slo:first-entry", w.InstrPos(st), "assigned from "+shortCallee(calleeName(helperCall))+", which hands out the first element of the list it is given and nothing only for an empty list", helperWhy)
 		default:
 			// the element index starts at 0: the loaded element is IndexAddr(list, induction from 0)
 			first := false
@@ -458,4 +477,129 @@ func (cx *Ctx) checkRecordedAfterDecode(r *Report, key string, step *Step, decTy
 		}
 	}
 	r.Check(n > 0, "R-ORDER", key, w.FnPos(fn), fmt.Sprintf("%s.%s is stored on each of the %d paths on which the decoder succeeded", owner, field, n), "no path on which the decoder succeeds was found")
+}
+
+// atomAboutCall: the atom tests a result of call c (its ok flag, its value, its error).
+func atomAboutCall(a Atom, c *ssa.Call) bool {
+	v := stripNot(a.Cond)
+	var ops [8]*ssa.Value
+	check := func(x ssa.Value) bool {
+		if x == ssa.Value(c) {
+			return true
+		}
+		if e, ok := x.(*ssa.Extract); ok && e.Tuple == ssa.Value(c) {
+			return true
+		}
+		return false
+	}
+	if check(v) {
+		return true
+	}
+	if in, ok := v.(ssa.Instruction); ok {
+		for _, op := range in.Operands(ops[:0]) {
+			if op != nil && *op != nil && check(*op) {
+				return true
+			}
+		}
+	}
+	return false
+}
+
+// firstElemHelper: v is (a result of) a call to a module function that hands out a field of the FIRST element of a
+// slice parameter: every return either yields such a value (element index 0, or the element of the first iteration
+// of a range that is left at once) or the zero value - and the zero value only on paths that found the slice empty.
+// Returns the call (nil if v is not of this form) and, if the helper does not qualify, why.
+func (cx *Ctx) firstElemHelper(v ssa.Value) (*ssa.Call, string) {
+	fx := cx.Fx
+	idx := 0
+	var call *ssa.Call
+	switch x := v.(type) {
+	case *ssa.Extract:
+		call, _ = x.Tuple.(*ssa.Call)
+		idx = x.Index
+	case *ssa.Call:
+		call = x
+	}
+	if call == nil {
+		return nil, ""
+	}
+	h := calleeOf(call)
+	if h == nil || h.Blocks == nil || h.Pkg == nil || !isModulePath(h.Pkg.Pkg.Path()) {
+		return nil, ""
+	}
+	// the slice parameter(s)
+	var lists []*ssa.Parameter
+	for _, p := range h.Params {
+		if _, isSl := p.Type().Underlying().(*types.Slice); isSl {
+			lists = append(lists, p)
+		}
+	}
+	if len(lists) != 1 {
+		return nil, ""
+	}
+	list := lists[0]
+	aps, ok := fx.atomPaths(h, 1024)
+	if !ok {
+		return call, "too many paths in " + cx.W.FuncKey(h)
+	}
+	nFirst := 0
+	for i := range aps {
+		p := &aps[i]
+		if p.Ret == nil || idx >= len(p.Ret.Results) {
+			continue
+		}
+		rv := fx.retVal(p, idx)
+		if k, isK := rv.(*ssa.Const); isK {
+			if s, isS := constString(k); (isS && s == "") || k.Value == nil {
+				// nothing handed out: only for an empty list
+				empty := false
+				for _, a := range p.Atoms {
+					if a.Op == "EMPTY" && !a.Neg && a.A == fx.path(list) {
+						empty = true
+					}
+					if a.Op == "NIL" && !a.Neg && a.A == fx.path(list) {
+						empty = true
+					}
+				}
+				if !empty {
+					return call, cx.W.FuncKey(h) + " hands out nothing on a path that has not found the list empty (" + atomsString(p.Atoms) + "): a provider with registered entries is treated as having none"
+				}
+				continue
+			}
+		}
+		first := false
+		switch y := rv.(type) {
+		case *ssa.UnOp:
+			if fa, isFA := y.X.(*ssa.FieldAddr); isFA {
+				first = cx.isFirstRangeElem(fa.X) && elemListIs(fa.X, list)
+			}
+		case *ssa.Field:
+			first = cx.isFirstRangeElem(y.X) && elemListIs(y.X, list)
+		}
+		if !first {
+			return call, cx.W.FuncKey(h) + " can hand out something other than the first element of the list (" + cx.W.InstrPos(p.Ret) + ")"
+		}
+		nFirst++
+	}
+	if nFirst == 0 {
+		return call, cx.W.FuncKey(h) + " never hands out the first element"
+	}
+	return call, ""
+}
+
+// elemListIs: the element address / value v indexes the given slice parameter.
+func elemListIs(v ssa.Value, list *ssa.Parameter) bool {
+	for i := 0; i < 6; i++ {
+		switch x := v.(type) {
+		case *ssa.IndexAddr:
+			return x.X == ssa.Value(list)
+		case *ssa.Index:
+			return x.X == ssa.Value(list)
+		case *ssa.UnOp:
+			v = x.X
+		default:
+			return false
+		}
+	}
+	return false
 }
